@@ -304,7 +304,9 @@ fn gen_case(tape: Vec<u8>) -> Case {
             let (frag, what) = match &pos.ty {
                 Ty::Address => {
                     let a = u.bytes(21);
-                    match u.below(4) {
+                    match u.below(6) {
+                        4 => (format!("0x0x{}", hex_lower(&a[..20])), "address with a doubled 0x prefix"),
+                        5 => (format!("0x+{}", hex_lower(&a[..20])[1..].to_string()), "address with a sign after the prefix"),
                         0 => (format!("0x{}", hex_lower(&a[..19])), "19-byte address"),
                         1 => (format!("0x{}", hex_lower(&a)), "21-byte address"),
                         2 => (hex_lower(&a[..20]), "address without 0x"),
